@@ -1,14 +1,17 @@
 #!/usr/bin/env python3
-"""Sensitivity sweep: apply each patch of mutants/ (and seeded/*/patch.diff) to /repo, run the quick check of the
-property it targets, expect exit 1, and restore /repo.   python3 vlib/mutants.py [name-substring ...]
+"""Sensitivity sweep: apply each patch of mutants/ (and seeded/*/patch.diff) to a private scratch worktree of /repo
+(outside /repo and /verif, removed afterwards), run the quick check of the property it targets against that tree
+(VERIF_REPO), expect exit 1.   python3 vlib/mutants.py [-j N] [name-substring ...]
 
 The catalogue (patch -> properties expected to catch it) is mutants/catalogue.json. This is evidence about the
-machinery, not part of the per-property interface."""
+machinery, not part of the per-property interface; its runs write their evidence files to a scratch directory."""
 import json
 import os
 import subprocess
 import sys
+import tempfile
 import time
+from concurrent.futures import ThreadPoolExecutor
 
 V = os.path.dirname(os.path.dirname(os.path.abspath(__file__)))
 
@@ -17,31 +20,51 @@ def sh(cmd, **kw):
     return subprocess.run(cmd, shell=True, stdout=subprocess.PIPE, stderr=subprocess.STDOUT, text=True, **kw)
 
 
+def one(ent, base):
+    name, props, patch = ent["name"], ent["props"], os.path.join(V, ent["patch"])
+    wt = os.path.join(base, name)
+    rows = []
+    a = sh("git -C /repo worktree add -q --detach %s HEAD" % wt)
+    if a.returncode != 0:
+        return [(name, "worktree failed: " + a.stdout[-200:], "")]
+    try:
+        ap = sh("git -C %s apply --whitespace=nowarn %s" % (wt, patch))
+        if ap.returncode != 0:
+            print(name, "DOES NOT APPLY", ap.stdout[-300:], flush=True)
+            return [(name, "patch does not apply", "")]
+        env = dict(os.environ, VERIF_REPO=wt, VERIF_EVIDENCE_DIR=os.path.join(base, "evidence-" + name))
+        for p in props:
+            t0 = time.time()
+            r = sh("./check %s --tier quick" % p, cwd=V, env=env)
+            verdict = {0: "MISSED", 1: "caught", 2: "inconclusive"}.get(r.returncode, str(r.returncode))
+            first = [l for l in r.stdout.splitlines() if l.startswith("  what:") or "INCONCLUSIVE" in l][:1]
+            rows.append((name, p, verdict))
+            print("%-34s %-4s %-12s %5.0fs %s" % (name, p, verdict, time.time() - t0, (first[0][:160] if first else "")), flush=True)
+    finally:
+        sh("git -C /repo worktree remove --force %s" % wt)
+        sh("rm -rf %s" % os.path.join(base, "evidence-" + name))
+    return rows
+
+
 def main():
     cat = json.load(open(os.path.join(V, "mutants", "catalogue.json")))
-    want = sys.argv[1:]
-    assert sh("git -C /repo status --porcelain").stdout.strip() == "", "/repo is not clean"
+    args = sys.argv[1:]
+    jobs = 1
+    if args[:1] == ["-j"]:
+        jobs, args = int(args[1]), args[2:]
+    todo = [e for e in cat if not args or any(w in e["name"] for w in args)]
+    base = tempfile.mkdtemp(prefix="rux-mutants-")
     rows = []
-    for ent in cat:
-        name, props, patch = ent["name"], ent["props"], os.path.join(V, ent["patch"])
-        if want and not any(w in name for w in want):
-            continue
-        ap = sh("git -C /repo apply --whitespace=nowarn %s" % patch)
-        if ap.returncode != 0:
-            rows.append((name, "patch does not apply", ""))
-            print(name, "DOES NOT APPLY", ap.stdout[-300:])
-            continue
-        try:
-            for p in props:
-                t0 = time.time()
-                r = sh("./check %s --tier quick" % p, cwd=V)
-                verdict = {0: "MISSED", 1: "caught", 2: "inconclusive"}.get(r.returncode, str(r.returncode))
-                first = [l for l in r.stdout.splitlines() if l.startswith("  what:") or "INCONCLUSIVE" in l][:1]
-                rows.append((name, p, verdict))
-                print("%-34s %-4s %-12s %5.0fs %s" % (name, p, verdict, time.time() - t0, (first[0][:160] if first else "")), flush=True)
-        finally:
-            sh("git -C /repo checkout -- . && git -C /repo clean -fdq")
+    try:
+        with ThreadPoolExecutor(max_workers=jobs) as ex:
+            for r in ex.map(lambda e: one(e, base), todo):
+                rows += r
+    finally:
+        sh("git -C /repo worktree prune")
+        sh("rm -rf %s" % base)
     missed = [r for r in rows if r[2] != "caught"]
+    for r in missed:
+        print("NOT CAUGHT:", r)
     print("%d runs, %d not caught" % (len(rows), len(missed)))
     return 1 if missed else 0
 
